@@ -186,6 +186,29 @@ def canonical(rng, ntracks: int, titles=True, nidx=(1, 3), name="disc.bin", firs
     return lines, firsts
 
 
+NAMES = ["disc.bin", "AKAI CD Vol 1 (Track 01).bin", "a b.bin", "My  Disc.BIN", "x-y_z.img", "sub/dir.bin"]
+
+
+def intended(lines: Sequence[str]):
+    """the meaning of a CANONICAL sheet (as `canonical` writes them), read off with plain string operations -
+    independent of the parser under test: the value `meaning_real` must return for it."""
+    name, tracks = None, []
+    for l in lines:
+        t = l.strip()
+        if t.startswith("FILE "):
+            name = t[t.index('"') + 1: t.rindex('"')]
+        elif t.startswith("TRACK "):
+            _, k, mode = t.split(" ")
+            tracks.append([int(k), mode, None, []])
+        elif t.startswith("TITLE "):
+            tracks[-1][2] = t[t.index('"') + 1: t.rindex('"')]
+        elif t.startswith("INDEX "):
+            _, j, tm = t.split(" ")
+            mm, ss, ff = tm.split(":")
+            tracks[-1][3].append((int(j), int(mm), int(ss), int(ff)))
+    return (name, [tuple(t) for t in tracks])
+
+
 WS = [" ", "\t", "\x0b", "\x0c", "\x1c", "\x1f", "  \t "]
 UNKNOWN = ["REM GENRE Rock", "PERFORMER \"Somebody\"", "FLAGS DCP", "PREGAP 00:02:00", "ISRC ABCDE1234567", "CATALOG 1234567890123",
            "REM TRACK 01 AUDIO", "SONGWRITER \"x\"", "POSTGAP 00:00:10"]
